@@ -48,7 +48,7 @@ pub fn to_config(cfg: &Cfg) -> Config {
         2 => Config::new().with_tab_spaces(t).with_width(w),
         _ => Config::default().with_tab_spaces(t).with_width(w).with_tab_spaces(t),
     };
-    Config { reorder_import_items: cfg.reorder, ..base }
+    Config { reorder_import_items: cfg.reorder, blank_lines_upper_bound: cfg.blank, ..base }
 }
 
 pub struct Real {
